@@ -248,8 +248,35 @@ func c03Exec(run *ev.Run, c ev.Case) {
 		lostThis = false
 		first := b.Len()
 		var code ipmi.CompletionCode
-		pv, stk := safe(func() { code, err = sess.SendCommand(ctx, g.Cmd) })
-		desc := fmt.Sprintf("suite %v command %d (%s, body %d bytes)", su, i, g.Label, len(g.RawData))
+		viaMethod := false
+		pv, stk := safe(func() {
+			if i%3 == 2 {
+				// the same request through the session's own method for it: what a method of a
+				// session sends is a session datagram like any other
+				viaMethod = true
+				switch g.Label {
+				case "guid":
+					_, err = sess.GetSystemGUID(ctx)
+				case "devid":
+					_, err = sess.GetDeviceID(ctx)
+				case "chassisstatus":
+					_, err = sess.GetChassisStatus(ctx)
+				case "repoinfo":
+					_, err = sess.GetSDRRepositoryInfo(ctx)
+				case "reserve":
+					_, err = sess.ReserveSDRRepository(ctx)
+				case "authcaps":
+					_, err = sess.GetChannelAuthenticationCapabilities(ctx, &g.Cmd.(*ipmi.GetChannelAuthenticationCapabilitiesCmd).Req)
+				default:
+					viaMethod = false
+				}
+				if viaMethod {
+					return
+				}
+			}
+			code, err = sess.SendCommand(ctx, g.Cmd)
+		})
+		desc := fmt.Sprintf("suite %v command %d (%s, body %d bytes, through the session's method: %v)", su, i, g.Label, len(g.RawData), viaMethod)
 		if pv != nil {
 			run.Violation("C03:panic:"+panicSite(stk), fmt.Sprintf("%s: panic %v\n%s", desc, pv, trimStack(stk)), c, nil)
 			return
